@@ -337,7 +337,16 @@ def one_history(ctx, net, rng, idx):
             if default_cuid is not None and cu2 != default_cuid:
                 ctx.violation("persist/default-clientuid-changed", f"writing nickname {other} changed the default CLIENTUID {default_cuid} -> {cu2}", case)
                 return
-        argv = argv_for(nick, cliopts) + ["--password", canary]
+        # every request kind that can persist settings, not only 'stmt' (the first run stays 'stmt': it establishes the section)
+        cmd = "stmt" if r == 0 else rng.choice(["stmt", "stmt", "stmt", "stmtend", "prof", "acctinfo"])
+        if cmd == "acctinfo" and kind != "plain":
+            cmd = "prof"  # 'acctinfo --write' also merges the discovered accounts: C19's business
+        if cmd != "stmt":
+            import ofxtools.scripts.ofxget as og1
+            known = {a.dest for a in og1.make_argparser().subparsers[cmd]._actions}
+            cliopts = {k: v for k, v in cliopts.items() if k in known}
+        ctx.count(f"history_runs_{cmd}_{kind}")
+        argv = argv_for(nick, cliopts, cmd) + ["--password", canary]
         if kind in ("write", "dry-write"):
             argv.append("--write")
         if kind == "dry-write":
